@@ -155,7 +155,8 @@ def interpret_build(ctx: Ctx, is_coro: bool, tags: Tuple[str, ...], single: bool
         calls: List[str] = []
         stubs: Dict[str, Any] = {}
         for m in b.methods.values():
-            if m.fid == trav_fid or 'validate' in m.name or m.name == '_add_node_to_map':
+            if (m.fid == trav_fid or 'validate' in m.name or m.name == '_add_node_to_map'
+                    or (m.name != 'build' and ('__annotations__' in unparse(m.node) or 'signature(' in unparse(m.node)))):
                 stubs[m.fid] = (lambda name: (lambda interp, a, k, s_: calls.append(name)))(m.name)
         for u in p.functions.values():
             if u.parent is None and u.cls is None and u.name == 'get_callable_run_method':
@@ -185,8 +186,9 @@ def interpret_build(ctx: Ctx, is_coro: bool, tags: Tuple[str, ...], single: bool
     return results
 
 
-def _declared(ctx: Ctx, is_coro: bool, tags: Tuple[str, ...]) -> Tuple[Set[str], str]:
-    """Which pools the builder declares as needed (through build -> DAG kwargs) for a one-node map."""
+def _declared(ctx: Ctx, is_coro: bool, tags: Tuple[str, ...], weakest: bool = True) -> Tuple[Set[str], str]:
+    """Which pools the builder declares as needed (through build -> DAG kwargs) for a one-node map.  Over the paths of build()
+    the flags are combined to the weaker claim (weakest: validated on every path) or the stronger (validated on some path)."""
     p = ctx.p
     from .bd import _builder_class
     b = _builder_class(ctx)
@@ -211,7 +213,7 @@ def _declared(ctx: Ctx, is_coro: bool, tags: Tuple[str, ...]) -> Tuple[Set[str],
                 kwargs = kw
             elif kwargs != kw:
                 # the flags differ between the traversed and the single-node path / between resolutions: keep the weaker claim
-                kwargs = {k: kwargs[k] and kw[k] for k in kw}
+                kwargs = {k: (kwargs[k] and kw[k]) if weakest else (kwargs[k] or kw[k]) for k in kw}
     if kwargs is None:
         raise AnalysisError('build() could not be interpreted (EX-3 anchor vanished)')
     # which registries DAG.run validates for these flags
@@ -318,6 +320,24 @@ def rule_decision_table(ctx: Ctx, out: Collector) -> None:
             bad.append(f'{key}: run_node fetches the {"/".join(sorted(fetched - validated))} pool but only {sorted(validated)} '
                        f'is validated ({how})')
     unit = ctx.p.func(RUN_NODE)
+    # EX-7: the converse - no pool is demanded for a node kind that never touches it
+    over = []
+    table7 = {}
+    for is_coro, has_proc, has_na in itertools.product((False, True), repeat=3):
+        tags = tuple(t for t, on in (('process', has_proc), ('non_async', has_na)) if on)
+        fetched = _fetched(ctx, is_coro, tags)
+        demanded, how = _declared(ctx, is_coro, tags, weakest=False)
+        key = f'coroutine={is_coro} tags={tags}'
+        table7[key] = {'fetched': sorted(fetched), 'demanded': sorted(demanded)}
+        if not demanded <= fetched:
+            over.append(f'{key}: the {"/".join(sorted(demanded - fetched))} pool is demanded before the run but run_node never fetches it '
+                        f'for such a node ({how})')
+    cons7 = f'{unit.module.name}::{unit.qualname}::a pool is demanded only for node kinds that use it (8 node kinds) [no-over-demand]'
+    if not over:
+        out.ok('EX-7', cons7, ctx.p.loc(unit, unit.node), 'demanded is a subset of fetched for all 8 kinds', table=table7)
+    else:
+        out.bad('EX-7', cons7, ctx.p.loc(unit, unit.node), 'a chart whose nodes never touch a pool refuses to run without it, so the '
+                'execution mode changes the outcome: ' + '; '.join(over[:3]), [f'{k}: {v}' for k, v in table7.items()], table=table7)
     cons = f'{unit.module.name}::{unit.qualname}::pool fetched at run time is a pool validated before the run (8 node kinds)'
     if not bad:
         out.ok('EX-2', cons, ctx.p.loc(unit, unit.node), 'fetched is a subset of validated for all 8 kinds', table=table)
